@@ -104,7 +104,9 @@ def run_recovered(case, prop, sweep, direction="out"):
                     except TraphException:
                         continue
                     opened.append(t)
-                    states.append(("crash cut after write event %d/%d" % (k, n), t, d))
+                    # ops to re-submit after the recovery: the interrupted request and what followed it
+                    retry = case["ops"][max(0, i - 1) :][: rec.get("retry", 0)] if i >= 1 else []
+                    states.append(("crash cut after write event %d/%d" % (k, n), t, d, retry, (snaps[i][3], rules)))
                     res.stats["recovered_crash_states"] += 1
                 h.update(repr(sorted(set(ks))).encode())
             else:
@@ -138,20 +140,46 @@ def run_recovered(case, prop, sweep, direction="out"):
                     sut.reopen(model.default_src, model.rules_src)
                     opened.append(sut.traph)
                     t = sut.traph
-                states.append(("crawl batch abandoned after %d steps%s" % (steps, " then close+reopen" if rec.get("reopen") else ""), t, d))
+                states.append(("crawl batch abandoned after %d steps%s" % (steps, " then close+reopen" if rec.get("reopen") else ""), t, d, [], None))
                 h.update(repr((steps, rec.get("reopen"))).encode())
-            for label, t, d in states:
-                a, b = bytes(d.files[t.lru_trie_path]), bytes(d.files[t.link_store_path])
-                fs = Fsck(a, b)
-                raw = RawModel(fs, direction)
-                ctx = shim_ctx(case, prop, res, h, t, d, raw, case.get("obs_seed", 0))
-                if raw.links_out != raw.links_in:
-                    res.probes["recovered_state_with_in_out_lag"] += 1
-                try:
-                    sweep(ctx)
-                except Violation as v:
-                    raise Violation(v.clause, "%s: %s" % (label, v.detail))
-                res.stats["recovered_states_swept"] += 1
+            for label, t, d, retry, reopen_args in states:
+                def sweep_now(label_):
+                    a, b = bytes(d.files[t.lru_trie_path]), bytes(d.files[t.link_store_path])
+                    fs = Fsck(a, b)
+                    raw = RawModel(fs, direction)
+                    ctx = shim_ctx(case, prop, res, h, t, d, raw, case.get("obs_seed", 0))
+                    if raw.links_out != raw.links_in:
+                        res.probes["recovered_state_with_in_out_lag"] += 1
+                    try:
+                        sweep(ctx)
+                    except Violation as v:
+                        raise Violation(v.clause, "%s: %s" % (label_, v.detail))
+                    res.stats["recovered_states_swept"] += 1
+                    return raw
+
+                raw = sweep_now(label)
+                if retry:
+                    # the caller retries: the interrupted request and the following ones are submitted
+                    # again on the recovered index; the consistency clauses must still hold afterwards
+                    sut_ = _Sut(t, d)
+                    sut_.reopen = None
+                    done_ = 0
+                    for op in retry:
+                        if op["op"] in ("reopen", "reopen_older_release", "reopen_overwrite", "clear"):
+                            break
+                        rm = RawModel(Fsck(bytes(d.files[t.lru_trie_path]), bytes(d.files[t.link_store_path])), direction)
+                        rm.rules_src = dict(reopen_args[1]) if reopen_args else {}
+                        rm.rules = dict.fromkeys(rm.rules_src)
+                        refs = O.resolve_refs(op, rm)
+                        if refs is None:
+                            continue
+                        ob = run_op(sut_, op, refs, rm)
+                        if ob[0] == "raised":
+                            break
+                        done_ += 1
+                    if done_:
+                        res.stats["requests_retried_after_recovery"] += done_
+                        sweep_now(label + ", then %d request(s) re-submitted" % done_)
             if res.stats["recovered_states_swept"]:
                 res.nontrivial = True
         except Violation as v:
@@ -179,7 +207,10 @@ def add_recovered(case, g, rng):
     """Turn a generated sequential case into a recovered-state case."""
     case["ops"] = [o for o in case["ops"] if o["op"] not in ("reopen",)][:16]
     if rng.random() < 0.5:
-        case["recovered"] = {"kind": "crash", "cuts": rng.choice([2, 4, 6])}
+        # "retry" (re-submitting the interrupted request on the recovered index and sweeping again) is
+        # implemented but switched off: no listed property quantifies over writing after a crash, and on
+        # the unchanged tree such continuations do produce inconsistent answers (DESIGN.md section 10)
+        case["recovered"] = {"kind": "crash", "cuts": rng.choice([2, 4, 6]), "retry": 0}
     else:
         saved = g.weights
         g.weights = {"batch": 1}
